@@ -43,6 +43,23 @@ func nonNilTest(cond ssa.Value, v ssa.Value) (isTest bool, nonNilWhenTrue bool) 
 	return false, false
 }
 
+// nonNilTestP is nonNilTest with the condition's operands resolved along the path
+// (the tested variable may be a merge of several stages' results).
+func nonNilTestP(cond ssa.Value, v ssa.Value, p *pathCtx) (bool, bool) {
+	if is, pol := nonNilTest(cond, v); is {
+		return is, pol
+	}
+	b, ok := cond.(*ssa.BinOp)
+	if !ok || (b.Op != token.NEQ && b.Op != token.EQL) {
+		return false, false
+	}
+	x, y := resolvePhi(b.X, p), resolvePhi(b.Y, p)
+	if (x == v && isNilConst(y)) || (y == v && isNilConst(x)) {
+		return true, b.Op == token.NEQ
+	}
+	return false, false
+}
+
 // nonEmptyTest: cond tests len(v) > 0.
 func nonEmptyTest(cond ssa.Value, v ssa.Value) (isTest bool, nonEmptyWhenTrue bool) {
 	b, ok := cond.(*ssa.BinOp)
@@ -256,7 +273,7 @@ func ruleC06Stages(r *Run) {
 			switch s.k {
 			case 1, 2:
 				route := extractOf(s.in.(*ssa.Call), 0)
-				found, ok = decTruth(func(cond ssa.Value) (bool, bool) { return nonNilTest(cond, route) })
+				found, ok = decTruth(func(cond ssa.Value) (bool, bool) { return nonNilTestP(cond, route, p) })
 				if found && ok {
 					if rv(0) != route || rv(1) != extractOf(s.in.(*ssa.Call), 1) {
 						note("ret12", fmt.Sprintf("after stage S%d succeeded the function does not return that stage's route and parameters", s.k))
@@ -633,7 +650,7 @@ func ruleC06Dispatch(r *Run) {
 func init() {
 	register(&property{
 		Meta: propertyMeta{
-			ID: "C06",
+			ID:          "C06",
 			Explanation: "(C06-STAGES) path-sensitive stage automaton over every CFG path of QuickMatch: stages S1 direct match, S2 match(GET) under method == HEAD, S3 stableRoutes[method+\"/*\"] under HandleFallbackRoute, S4 findAllowedMethods under HandleMethodNotAllowed run in that order, each stage's result is tested, a success returns that stage's own values and no later stage runs, each later stage is reachable only through the failure of all earlier ones and only under its option flag. (C06-PATH) every matcher call receives formatPath(request path), or formatPath(interceptAll) when InterceptAll is set. (C06-ALLOW) the allowed set is computed by the dispatch matcher on the same path over a range of anyMethods, skipping exactly the request's method, recording a method iff it matched. (C06-DISPATCH) the dispatcher maps route / non-empty allowed set / nothing to the route, not-allowed (set stored first) and not-found chains on every path; default handlers: http.NotFound; sorted Allow header, 200 iff OPTIONS else 405.",
 			NotDecided:  []string{"which routes match (C01)", "exact bytes of the Allow header"},
 			Assumptions: []string{"option flags are fixed after registration (C13-GATE)"},
